@@ -131,7 +131,7 @@ def lines_preserved(before: bytes, after: bytes):
 class C14(Check):
     id = "C14"
     level = "exploration"
-    rule = ("experiment = one trigger file of a dependency-adding codemod (5 codemods) + 0-4 manifests drawn from the fixed 118-shape "
+    rule = ("experiment = one trigger file of a dependency-adding codemod (5 codemods) + 0-4 manifests drawn from the fixed 121-shape "
             "manifest corpus (4 formats) placed at root / sub-directories x directory enumeration permutation (store discovery order) x "
             "history (run, identical re-run) x manifest faults (EACCES / EROFS at open-for-write on each store in turn, on all stores, or "
             "none present; vanish / EIO / EACCES at the n-th read of the chosen store; ENOSPC / short write / EIO while it is being "
